@@ -8,21 +8,24 @@ out="$here/seeded/RESULTS.md"
 {
 echo "# Seeded changes against the registered quick checks"
 echo
-echo "Each patch was applied to /repo (git apply), the quick check of the property it breaks was run (VERIF_SEED=${VERIF_SEED:-1}), and /repo was restored (git checkout -- .). Evidence files are restored from git afterwards, so committed evidence always comes from the unchanged tree."
+echo "Each patch was applied to /repo (git apply), the quick check of the property it breaks was run once per seed in VERIF_SEED = ${SEEDS:-1} (exit status per seed: 1 = VIOLATION reported), and /repo was restored (git checkout -- .). Evidence files are restored from git afterwards, so committed evidence always comes from the unchanged tree."
 echo
-echo "| seeded change | exit | first violation line |"
+echo "| seeded change | exit per seed | first violation line |"
 echo "|---|---|---|"
 } > "$out"
 status=0
 for meta in "$here"/seeded/C*/*/meta.json; do
   dir=$(dirname "$meta"); name=$(basename "$dir"); pid=$(basename "$(dirname "$dir")")
   git -C /repo apply "$dir/patch.diff" || { echo "| $pid/$name | patch does not apply | |" >> "$out"; continue; }
-  log=$(mktemp)
-  "$here/check" "$pid" --tier quick --no-evidence > "$log" 2>&1; rc=$?
+  log=$(mktemp); rcs=""; first=""
+  for seed in ${SEEDS:-1}; do
+    VERIF_SEED=$seed "$here/check" "$pid" --tier quick --no-evidence > "$log" 2>&1; rc=$?
+    rcs="$rcs$rc "
+    [ -n "$first" ] || first=$(grep -m1 '^violation' "$log" | cut -c1-110)
+    [ "$rc" = 1 ] || status=1
+  done
   git -C /repo checkout -- .
-  first=$(grep -m1 '^violation' "$log" | cut -c1-110)
-  echo "| $pid/$name | $rc | $first |" >> "$out"
-  [ "$rc" = 1 ] || status=1
+  echo "| $pid/$name | $rcs| $first |" >> "$out"
   rm -f "$log"
 done
 # remove counter-examples produced against the changed trees (they are not regressions of the real tree)
